@@ -15,7 +15,8 @@ def history(rng, fractional=True):
     lines = ["predicate A(real x) : Interval { duration >= 1.0; }",
              "predicate B() : Impulse { }",
              "predicate C(real y) : Interval { duration >= 0.5; goal b = new B(); b.at >= start; b.at <= end; }",
-             "predicate D(bool p) : Interval { duration >= 1.0; }"]
+             "predicate D(bool p) : Interval { duration >= 1.0; }",
+             "predicate E(real v) : Interval { duration >= 1.0; }"]
     if rng.random() < 0.2:
         lines.append('enum Speed {"High", "Low"};')       # values that no variable names: the solution is serialised with them
     n = rng.randint(1, 5)
@@ -44,6 +45,12 @@ def history(rng, fractional=True):
         lines.append(f"goal {name} = new D();")
         lines.append("{ " + f"!{name}.p;" + " } or { " + f"{name}.p;" + (f" {name}.start >= {num_text(F(rng.randint(2, 6)))};" if rng.random() < 0.5 else "") + " }")
         atoms.append((name, "D"))
+    if rng.random() < 0.25:
+        # an interval with a real parameter the search chooses between two values: frozen when it starts
+        name = f"e{n}"
+        lines.append(f"goal {name} = new E();")
+        lines.append("{ " + f"{name}.v == 1.0;" + " } or { " + f"{name}.v == 2.0;" + " }")
+        atoms.append((name, "E"))
     for _ in range(rng.randint(0, 3)):
         if len(atoms) < 2:
             break
